@@ -48,13 +48,30 @@ def r16a(ctx):
                    f"replace(pattern) with no replacement reaches a write ({site.func.ident}: {site.what}): counting matches changes the document")
     # the arms
     arm = None
+    from ..paths import if_arms
+
+    def is_new_none(t):
+        """+1 for `new is None`, -1 for `new is not None`, 0 otherwise"""
+        if isinstance(t, ast.Compare) and len(t.ops) == 1 and isinstance(t.left, ast.Name) and t.left.id == "new" and isinstance(t.comparators[0], ast.Constant) \
+                and t.comparators[0].value is None:
+            return 1 if isinstance(t.ops[0], ast.Is) else (-1 if isinstance(t.ops[0], ast.IsNot) else 0)
+        return 0
+
     for n in walk_no_nested(f.node):
-        if isinstance(n, ast.If) and ast.unparse(n.test).replace(" ", "") == "newisNone":
+        if not isinstance(n, ast.If):
+            continue
+        core, when_t, when_f = if_arms(n)
+        k = is_new_none(core)
+        if k == 0:
+            continue
+        count_arm, repl_arm = (when_t, when_f) if k == 1 else (when_f, when_t)
+        if n.test is core and k == 1:
             arm = n
-        elif isinstance(n, ast.If) and ast.unparse(n.test).replace(" ", "") == "newisnotNone" and n.orelse:
-            # same decision written the other way round: normalise to (count arm, replace arm)
-            arm = ast.If(test=n.test, body=n.orelse, orelse=n.body)
+        else:
+            # the same decision written another way round: normalise to (count arm, replace arm)
+            arm = ast.If(test=core if k == 1 else ast.Compare(left=core.left, ops=[ast.Is()], comparators=core.comparators), body=count_arm, orelse=repl_arm)
             ast.copy_location(arm, n)
+            ast.fix_missing_locations(arm)
             for ch in ast.walk(arm):
                 for c2 in ast.iter_child_nodes(ch):
                     c2._parent = ch
@@ -62,9 +79,11 @@ def r16a(ctx):
     if arm is None:
         raise AnalysisError("R16a: `if new is None` arm not found in Element.replace")
     loop = None
-    for n in walk_no_nested(f.node):
-        if isinstance(n, ast.For) and any(x is arm for x in ast.walk(n)):
-            loop = n
+    cur = arm
+    while cur is not None and loop is None:
+        cur = getattr(cur, "_parent", None)
+        if isinstance(cur, ast.For):
+            loop = cur
     q = repo.fold(loop.iter.args[0], f.module) if loop is not None and isinstance(loop.iter, ast.Call) and loop.iter.args else None
     ok = q == "descendant::text()"
     ctx.instance("R16a", f"{f.file}:{f.ident}", f"iterates the text nodes of {q!r}", ok=ok, nontrivial=True)
